@@ -43,6 +43,9 @@ def u16At (bs : Bytes) (off : Nat) : Option Nat :=
   | a :: b :: _ => some (a.toNat * 256 + b.toNat)
   | _ => none
 
+/-- big-endian encoding of a 16-bit field (`binary.BigEndian.PutUint16`) -/
+def be16 (v : Nat) : Bytes := [UInt8.ofNat (v / 256), UInt8.ofNat (v % 256)]
+
 /-- What `gopacket.NewPacket(quote, LayerTypeSCION)` yields for the offending packet quoted by an
 SCMP error, as far as `getDstPortSCMP` looks at it. -/
 inductive Quote
@@ -225,6 +228,27 @@ def step (c : Cfg) : Call → Cfg
     if validSvcAddr ip then { c with svcs := c.svcs.erase (svc, ip, port) } else c
 
 def run (c : Cfg) (cs : List Call) : Cfg := cs.foldl step c
+
+/-! specification helpers for statements about call sequences -/
+
+def Call.isSetPortRange : Call → Bool
+  | .setPortRange _ _ => true
+  | _ => false
+
+/-- the arguments of the last `SetPortRange` of a call list, if any -/
+def lastSet : List Call → Option (Nat × Nat)
+  | [] => none
+  | c :: cs =>
+    match lastSet cs with
+    | some x => some x
+    | none =>
+      match c with
+      | .setPortRange s e => some (s, e)
+      | _ => none
+
+/-- the range a `SetPortRange(s, e)` call asks for, after the router-configuration override -/
+def wanted (ovStart ovStop : Option Nat) (s e : Nat) : Range :=
+  ⟨override ovStart s, override ovStop e, endhostPort⟩
 
 /-- `dataPlane.resolveLocalDst` on the configured router -/
 def resolveLocalDst (c : Cfg) (dst : Dst) (proto : Nat) (pld : Bytes) (q : Quote) :
